@@ -77,3 +77,45 @@ Definition table_installed (m m' : machine) (app_id : Z) (c : chip) (es : list e
     /\ installed (cs_slots cs') base app_id es
     /\ unchanged_outside (cs_slots cs) (cs_slots cs') base (length es).
 
+
+(* ------------------------------------------------------------------------------------------------ *)
+(** * histories *)
+
+(* a command of the trace is addressed to chip (x, y) *)
+Definition item_at (x y : Z) (t : titem) : Prop :=
+  match t with
+  | TScp a b _ _ _ _ _ _ => a = x /\ b = y
+  | TRead a b _ _ _ _ => a = x /\ b = y
+  | TWrite a b _ _ _ _ => a = x /\ b = y
+  end.
+
+(* the router entries of a chip of the machine *)
+Definition routers (m : machine) (c : chip) : option (list rslot) :=
+  match cassoc c m with Some cs => Some (cs_slots cs) | None => None end.
+
+(* what run_history reports for one statement *)
+Definition hitem : Type :=
+  ((lres * list titem)
+   + (result (Z * list (Z * (list Z * Z * Z * list Z) * Z * Z)) * list titem))%type.
+
+(* Statement by statement: the report of a load is that of load_routing_table_entries on the machine as
+   the earlier statements left it; every command it issued went to the chip the statement names; the first
+   one, if any, is the allocation for the application the statement names and for as many entries as
+   given; a load that does not succeed leaves the router entries of EVERY chip as they were; a read-back
+   issues commands to the chip it names only and changes nothing. *)
+Fixpoint history_ok (m : machine) (ops : list hop) (items : list hitem) : Prop :=
+  match ops, items with
+  | [], [] => True
+  | HLoad x y a es :: ops', inl (res, tr) :: items' =>
+      let r := load_routing_table_entries m es x y a in
+      res = fst (fst r) /\ tr = snd r
+      /\ Forall (item_at x y) tr
+      /\ (forall it, hd_error tr = Some it -> exists base, it = alloc_item x y a (len es) base)
+      /\ (res <> LOk -> forall c, routers (snd (fst r)) c = routers m c)
+      /\ history_ok (snd (fst r)) ops' items'
+  | HRead x y :: ops', inr (g, tr) :: items' =>
+      (g, tr) = readback_digest (get_routing_table_entries m x y)
+      /\ Forall (item_at x y) tr
+      /\ history_ok m ops' items'
+  | _, _ => False
+  end.
